@@ -4,7 +4,7 @@ From Coq Require Import ZArith QArith Qminmax List Bool Lia.
 Import ListNotations.
 
 Inductive err := AssertFail (k:nat) | ZeroDiv | ValueErr | OracleMiss | IndexErr | OutOfFuel | Overflow
-               | RuntimeErr | KeyErr | TypeErr.
+               | RuntimeErr | KeyErr | TypeErr | GenericErr.
 Inductive res (A:Type) := Ok (a:A) | Err (e:err).
 Arguments Ok {A} a. Arguments Err {A} e.
 Definition bind {A B} (r:res A) (f:A->res B) : res B := match r with Ok a => f a | Err e => Err e end.
